@@ -142,3 +142,25 @@ PLAN["C14"] = {
     "quick": {"wall": 150, "tests": [{"run": "TestC14", "shards": 16, "checks": 40, "timeout": 130, "shrink": "40s"}]},
     "thorough": {"wall": 900, "tests": [{"run": "TestC14", "shards": 16, "checks": 1200, "timeout": 840, "shrink": "90s"}]},
 }
+
+PLAN["C09"] = {
+    "level": "exploration",
+    "rule": ("(a) scripted election: RF 1-5, RF-1..RF+1 in-process replicas whose directories hold the generated revision counter and state (closed / dirty / rebuilding); "
+             "generated sequences of registration requests (repeated, from a changed address with the same uuid), scripted failures of the start signal and of the "
+             "liveness probe, Start calls from any registered address and with several addresses; oracle = election model from the statement: a start signal only with "
+             ">= RF/2+1 registered and none attached, a successful new pick has the maximum revision among registered, reachable, non-rebuilding replicas, only the "
+             "signalled replica starts the volume, lower-revision replicas of a multi-address start are not RW and serve no read; "
+             "(b) end to end: replicas take a generated faulty write history through the real controller, all stop, re-register in a generated order with the values "
+             "their directories hold, the signalled replica starts a fresh controller and a full read must equal every acknowledged write; "
+             "non-trivial = >=2 registrations and a successful start signal"),
+    "assumptions": STACK_ASSUME + ["SignalToAdd / VerifyReplicaAlive are answered from the script (recorded) in the scripted tier; Create/Start use the real remote factory and replicas"],
+    "technique": "model-based property testing (rapid) of the registration/start protocol with a scripted backend factory; end-to-end restart check against the data model",
+    "quick": {"wall": 150, "tests": [
+        {"run": "TestC09", "shards": 12, "checks": 60, "timeout": 120},
+        {"run": "TestC09EndToEnd", "shards": 4, "checks": 25, "timeout": 120},
+    ]},
+    "thorough": {"wall": 900, "tests": [
+        {"run": "TestC09", "shards": 10, "checks": 2500, "timeout": 840},
+        {"run": "TestC09EndToEnd", "shards": 6, "checks": 500, "timeout": 840},
+    ]},
+}
